@@ -213,6 +213,11 @@ pub fn c09(tier: &str, seed: u64) -> i32 {
         let w = if thorough { 40 } else { 6 };
         val_lens.extend((c - w)..=(c + w));
     }
+    // the value's own length field and the slot-size field change width around 16 KiB and 2 MiB
+    for c in [16384u64, 2097152] {
+        let w = if thorough { 24 } else { 3 };
+        val_lens.extend((c - w - 8)..=(c + w));
+    }
     if thorough {
         val_lens.extend((16 * 1024 * 1024 - 3)..=(16 * 1024 * 1024));
         val_lens.extend([8192 - 1, 8192, 65536, 65537, 262144 - 8, 262144]);
